@@ -20,7 +20,7 @@ buffer, `r` (vectors only) a row view of a static 3×n matrix.
 * `pairs M a`            — digest of the `pair` lines of the 2×2 matrix number `a` with every 2×2 matrix over {-1,0,1,2}
 * `trio M n A B C`       — `(AB)C`, `A(BC)`, `A(B+C)`, `AB+AC`, `(A+B)C`, `AC+BC`
 * `trios M a b`          — digest of the `trio` results of the 2×2 matrices number `a`, `b` with every 2×2 matrix `C`
-* `builders x y z a b d` — `translation`, `scaling` (both overloads), `identity` 1…4, `vector::init`, `matrix::init`
+* `builders x y z a b d` — `translation`, `scaling` (both overloads), `identity` 1…4, `vector::init`, `matrix::init`, `matrix::row` + row constructor
 * `bits n`               — `bit_strings<long, n>`
 * `det0`                 — determinant of the 0×0 matrix
 -/
@@ -195,9 +195,12 @@ def buildersLine (tx ty tz a b d : Int) : String :=
   let v3 : Vec 3 := fromArray #v[tx, ty, tz]
   let vi : Vec 4 := init fun i => a * i.val + b
   let mi (r c : Nat) : Mat r c := Mat.init fun i j => a * i.val + b * j.val + d
+  let rows23 : Mat 2 3 := Mat.ofRows fun i => match i with
+    | 0 => row #v[tx, ty, tz]
+    | 1 => row #v[a, b, d]
   s!"tr={showM (Mat.translation tx ty tz)} trv={showM (Mat.translationV v3)} sc={showM (Mat.scaling tx ty tz)} scv={showM (Mat.scalingV v3)} " ++
   s!"id1={showM (Mat.identity 1)} id2={showM (Mat.identity 2)} id3={showM (Mat.identity 3)} id4={showM (Mat.identity 4)} " ++
-  s!"vi={showV vi} mi23={showM (mi 2 3)} mi32={showM (mi 3 2)} mi34={showM (mi 3 4)} mi41={showM (mi 4 1)}"
+  s!"vi={showV vi} mi23={showM (mi 2 3)} mi32={showM (mi 3 2)} mi34={showM (mi 3 4)} mi41={showM (mi 4 1)} rows={showM rows23}"
 
 def bitsLine (n : Nat) : String :=
   match n with
